@@ -1,7 +1,7 @@
 """C06 — refinement structures of the dimension-wise strategy stay well formed.
 
 P2 (one step from an arbitrary valid state): per dimension a refinement tree chosen by the solver (all binary trees with the
-given number of points), symbolic ordered end points, symbolic benefits >= 0, symbolic margin in (0,1], symbolic rebalancing
+given number of points), symbolic ordered end points, symbolic benefits >= 0, symbolic margin in [0,1], symbolic rebalancing
 safety factor >= 0; lmax / coarsening levels / adaptive scheme produced by the real update_coarsening_values / raise_lmax.
 The real SpatiallyAdaptivBase.refine() (selection loop, RefinementContainer.refine/prepare_remove/apply_remove/sorting,
 RefinementObjectSingleDimension.refine, refinement_postprocessing: rebalance, update_coarsening_values, raise_lmax) runs once.
@@ -26,7 +26,7 @@ def step(S, npts, rebalancing, trees=None, sym_coords=True, lmin=1, lmax0=2, ver
     b = [1.0] * d
     f = lib.make_function(S, 'F', d, 1)
     margin = S.real('margin')
-    S.assume(margin > 0)
+    S.assume(margin >= 0)  # margin = 0 is legitimate: every interval reaches 0 * max-benefit and is split
     S.assume(margin <= 1)
     safety = S.real('safety')
     S.assume(safety >= 0)
@@ -211,7 +211,7 @@ META = {
     'assumptions': ['pre-state invariant (stronger than the sentence in the property, and the post-state is checked against the stronger form): binary refinement tree per dimension '
                     '(two points of equal level are separated by a point of lower level; the higher of the nearest lower-level neighbours is exactly one level up), '
                     'end levels 0, coarsening = lmax - max level, lmax = max(lmax0, deepest level), adaptive scheme produced by raise_lmax from the initial scheme',
-                    'benefits arbitrary >= 0 (ties and zeros included), margin in (0,1], safety factor >= 0',
+                    'benefits arbitrary >= 0 (ties and zeros included), margin in [0,1], safety factor >= 0',
                     'lmin = 1, lmax0 = 2 for the step harness; unweighted midpoints (GlobalTrapezoidalGrid.get_mid_point)'],
     'outside': ['more points per dimension / more dimensions than stated', 'Chebyshev points, force_balanced_refinement_tree', 'weighted midpoints (C15)'],
 }
